@@ -9,7 +9,11 @@ package backend
 // Slice.TryFuse with a fake pool returning scripted errors and the virtual clock of hook
 // H1: the node is marked down exactly at the error that makes the reference count reach
 // min; only errors for which mysql.AsConnError holds count; nil and other errors never
-// count; fuse_enabled=off (policy not installed) never marks a node down.
+// count; fuse_enabled=off (policy not installed) never marks a node down. (c) replica GROUPS:
+// a slice with 2-3 replicas in Slave and 1-2 in StatisticSlave whose strategies are installed
+// by the REAL Slice.InitFuseRecoveryPolicy / DBInfo.InitFuseRecoveryPolicy; errors are
+// interleaved across replicas and groups and each replica has its own reference window: an
+// error on one replica must never count for, or change the status of, another one.
 
 import (
 	"context"
@@ -218,6 +222,153 @@ func c26RunFuse(c c26FuseCase) (clause string, at int, detail string) {
 	return "", -1, ""
 }
 
+type c26GEv struct {
+	Adv   int64  `json:"advance"`
+	Group int    `json:"group"` // 0 = Slave, 1 = StatisticSlave
+	Node  int    `json:"node"`
+	Kind  string `json:"kind"`
+	Via   string `json:"via"`
+}
+
+type c26GroupCase struct {
+	Part     string   `json:"part"` // "group"
+	W        int64    `json:"window"`
+	Min      int64    `json:"min"`
+	Cooldown int64    `json:"cooldown"`
+	Base     int64    `json:"base"`
+	NSlave   int      `json:"slaves"`
+	NStat    int      `json:"statistic_slaves"`
+	Events   []c26GEv `json:"events"`
+}
+
+// c26RunGroup: strategies come from the real InitFuseRecoveryPolicy; one reference window
+// per replica.
+func c26RunGroup(c c26GroupCase) (clause string, at int, detail string) {
+	clock := hcInstallClock(c.Base)
+	s := &Slice{Namespace: "c26g", FuseEnabled: "on", FuseWindowSize: c.W, FuseMinErrorCount: c.Min, FuseCooldownPeriod: c.Cooldown}
+	type rep struct {
+		node     *NodeInfo
+		pool     *hcPool
+		ref      *hcRefWindow
+		scripted error
+	}
+	groups := [2][]*rep{}
+	mk := func(g, n int) *DBInfo {
+		d := &DBInfo{}
+		for i := 0; i < n; i++ {
+			node, pool := hcNode(g*10+i, 1, "dc", true, clock)
+			r := &rep{node: node, pool: pool, ref: &hcRefWindow{w: c.W, min: c.Min}}
+			pool.getFn = func(p *hcPool) (PooledConnect, error) {
+				if r.scripted != nil {
+					return nil, r.scripted
+				}
+				return &hcConn{pool: p}, nil
+			}
+			d.Nodes = append(d.Nodes, node)
+			groups[g] = append(groups[g], r)
+		}
+		return d
+	}
+	s.Slave = mk(0, c.NSlave)
+	s.StatisticSlave = mk(1, c.NStat)
+	if err := hcEnableFuse(s, s.Slave); err != nil {
+		return "setup", -1, err.Error()
+	}
+	if err := hcEnableFuse(s, s.StatisticSlave); err != nil {
+		return "setup", -1, err.Error()
+	}
+	for i, ev := range c.Events {
+		if ev.Group < 0 || ev.Group > 1 || ev.Node < 0 || ev.Node >= len(groups[ev.Group]) {
+			continue
+		}
+		clock.Advance(ev.Adv)
+		tgt := groups[ev.Group][ev.Node]
+		tgt.node.SetStatusUp()
+		err := c26Err(ev.Kind, tgt.pool.addr)
+		if ev.Via == "get" {
+			tgt.scripted = err
+			s.getConnWithFuse(tgt.node)
+		} else {
+			s.TryFuse(tgt.node, err)
+		}
+		t := clock.Sec()
+		want := false
+		if c26Counts(ev.Kind) {
+			want = tgt.ref.record(t)
+		}
+		for g := range groups {
+			for n, r := range groups[g] {
+				if r != tgt && r.node.IsStatusDown() {
+					return "other-replica-marked-down", i, fmt.Sprintf("event %d: %s on replica %d of group %d at t=%d marked replica %d of group %d down", i, ev.Kind, ev.Node, ev.Group, t, n, g)
+				}
+			}
+		}
+		got := tgt.node.IsStatusDown()
+		tgt.node.SetStatusUp() // the harness plays "recovered": every replica is up before the next event
+		if got != want {
+			var all int64
+			for g := range groups {
+				for _, r := range groups[g] {
+					all += r.ref.count(t)
+				}
+			}
+			switch {
+			case got && !c26Counts(ev.Kind):
+				clause = "other-error-counted"
+			case got && all >= c.Min:
+				clause = "errors-of-another-replica-counted"
+			case got:
+				clause = "fired-below-threshold"
+			default:
+				clause = "missed-at-threshold"
+			}
+			return clause, i, fmt.Sprintf("event %d (%s via %s on replica %d of group %d) at t=%d: node down=%v; connection errors of THIS replica in (t-%d,t] = %d, of all replicas = %d, min=%d", i, ev.Kind, ev.Via, ev.Node, ev.Group, t, got, c.W, tgt.ref.count(t), all, c.Min)
+		}
+	}
+	return "", -1, ""
+}
+
+func c26ShrinkGroup(c c26GroupCase) c26GroupCase {
+	for changed := true; changed; {
+		changed = false
+		for i := 0; i < len(c.Events) && len(c.Events) > 1; i++ {
+			d := c
+			d.Events = nil
+			for j, ev := range c.Events {
+				if j == i {
+					continue
+				}
+				if j == i+1 {
+					ev.Adv += c.Events[i].Adv
+				}
+				d.Events = append(d.Events, ev)
+			}
+			if cl, _, _ := c26RunGroup(d); cl != "" {
+				c, changed = d, true
+				break
+			}
+		}
+	}
+	return c
+}
+
+// signature of the 1-minimal failing group history: clause + do the remaining events touch
+// one replica, several replicas of one group, or both groups.
+func c26GroupSig(c c26GroupCase, clause string) string {
+	gs, ns := map[int]bool{}, map[int]bool{}
+	for _, ev := range c.Events {
+		gs[ev.Group] = true
+		ns[ev.Group*10+ev.Node] = true
+	}
+	scope := "one-replica"
+	if len(gs) > 1 {
+		scope = "across-groups"
+	} else if len(ns) > 1 {
+		scope = "within-group"
+	}
+	return "group/" + clause + "/" + scope
+}
+
 func c26ShrinkFuse(c c26FuseCase) c26FuseCase {
 	for changed := true; changed; {
 		changed = false
@@ -325,12 +476,28 @@ func TestVerif_C26(t *testing.T) {
 		rec.Violation(c26FuseSig(m, cl2, at2), fmt.Sprintf("TryFuse W=%d min=%d cooldown=%d enabled=%q events=%+v: %s", m.W, m.Min, m.Cooldown, m.Enabled, m.Events, det2), m)
 	}
 
+	runGroup := func(c c26GroupCase) {
+		rec.Eval(1)
+		rec.Count("group.events", int64(len(c.Events)))
+		cl, _, _ := c26RunGroup(c)
+		if cl == "" {
+			return
+		}
+		m := c26ShrinkGroup(c)
+		cl2, _, det2 := c26RunGroup(m)
+		rec.Violation(c26GroupSig(m, cl2), fmt.Sprintf("group W=%d min=%d cooldown=%d slaves=%d statistic=%d events=%+v: %s", m.W, m.Min, m.Cooldown, m.NSlave, m.NStat, m.Events, det2), m)
+	}
+
 	if p := kit.ReplayPath(); p != "" {
 		var probe struct {
 			Part string `json:"part"`
 		}
 		kit.LoadReplay(p, &probe)
-		if probe.Part == "tryfuse" {
+		if probe.Part == "group" {
+			var c c26GroupCase
+			kit.LoadReplay(p, &c)
+			runGroup(c)
+		} else if probe.Part == "tryfuse" {
 			var c c26FuseCase
 			kit.LoadReplay(p, &c)
 			runFuse(c)
@@ -451,6 +618,65 @@ func TestVerif_C26(t *testing.T) {
 			rec.Sample(c)
 		}
 	}
+	// (4) replica groups built by the real InitFuseRecoveryPolicy, errors interleaved
+	r = kit.SubRand(kit.Seed(), "C26/group")
+	var crossKeys int64
+	for i, n := 0, kit.N(5000, 120000); i < n; i++ {
+		c := c26GroupCase{Part: "group", W: int64(r.Range(1, 8)), Min: int64(r.Range(2, 5)), Base: 1700000000 + int64(r.Intn(1000)), NSlave: r.Range(2, 3), NStat: r.Range(1, 2)}
+		if r.Bool() {
+			c.Cooldown = int64(r.Range(1, 30))
+		}
+		ne := r.Range(4, 30)
+		touched := map[int]bool{}
+		for j := 0; j < ne; j++ {
+			ev := c26GEv{Kind: []string{"conn", "conn", "conn", "conn", "pooltimeout", "plain", "nil"}[r.Intn(7)], Via: "get"}
+			if r.Chance(1, 3) {
+				ev.Via = "direct"
+			}
+			if r.Chance(1, 4) {
+				ev.Group = 1
+				ev.Node = r.Intn(c.NStat)
+			} else {
+				ev.Node = r.Intn(c.NSlave)
+			}
+			switch r.Intn(8) {
+			case 0:
+				ev.Adv = 1
+			case 1:
+				ev.Adv = int64(r.Intn(int(c.W) + 2))
+			}
+			if c26Counts(ev.Kind) {
+				touched[ev.Group*10+ev.Node] = true
+			}
+			c.Events = append(c.Events, ev)
+		}
+		runGroup(c)
+		if len(touched) >= 2 {
+			crossKeys++
+			var sb strings.Builder
+			fmt.Fprintf(&sb, "g/W%d/m%d/", c.W, c.Min)
+			for _, ev := range c.Events {
+				fmt.Fprintf(&sb, "%d.%d%d%s,", ev.Adv, ev.Group, ev.Node, ev.Kind[:1])
+			}
+			rec.Nontrivial(kit.Hash64(sb.String()))
+		}
+		if i < 2 {
+			rec.Sample(c)
+		}
+	}
+	// the statement's minimal cross-talk scenarios, always run
+	for _, min := range []int64{2, 4} {
+		var evs, evx []c26GEv
+		for k := int64(0); k < min-1; k++ {
+			evs = append(evs, c26GEv{Group: 0, Node: 0, Kind: "conn", Via: "get"})
+			evx = append(evx, c26GEv{Group: 0, Node: 0, Kind: "conn", Via: "get"})
+		}
+		evs = append(evs, c26GEv{Group: 0, Node: 1, Kind: "conn", Via: "get"})
+		evx = append(evx, c26GEv{Group: 1, Node: 0, Kind: "conn", Via: "get"})
+		runGroup(c26GroupCase{Part: "group", W: 4, Min: min, Base: 1700000000, NSlave: 2, NStat: 1, Events: evs})
+		runGroup(c26GroupCase{Part: "group", W: 4, Min: min, Base: 1700000000, NSlave: 2, NStat: 1, Events: evx})
+	}
+	rec.Count("group.histories_with_errors_on_several_replicas", crossKeys)
 	VerifSetClock(nil)
 
 	rec.Count("trigger.calls", triggers)
